@@ -7,7 +7,7 @@ from ..view import View
 from . import common
 
 JOBS = {"quick": 4, "thorough": 16}
-CONJUNCTS_FALSE = ["nonretry", "nostrategy", "perclass", "unknown", "global", "deadline"]
+CONJUNCTS_FALSE = ["nonretry", "nostrategy", "perclass", "unknown", "global", "deadline", "abort-requested"]
 DYNAMIC = ["abort", "budget", "handler-defer", "handler-abort", "deadline-after-sleep", "permitted"]
 
 
@@ -39,7 +39,7 @@ def work(ctx, tier):
         ctx.inc("sweep_scenarios")
     n = (8000 if tier == "quick" else 200000) // ctx.nshards
     for k in range(n):
-        sc = gen.rand_scenario(rng, p_special=0.04, specials=("abort",), p_budget=0.45, p_handler=0.35, p_abort=0.3, placements=(k % 4 == 0))
+        sc = gen.rand_scenario(rng, p_special=0.04, specials=("abort", "timeout"), p_budget=0.45, p_handler=0.35, p_abort=0.3, placements=(k % 4 == 0), p_abort_flag=0.25)
         for e in common.pick_entries(rng, rig.ENTRIES, 3):
             _one(ctx, sc, e, stats, sample=(k < 2 and ctx.shard == 0 and e.endswith("call")))
         ctx.inc("random_scenarios")
@@ -61,6 +61,19 @@ def work(ctx, tier):
                 for e in ("retry.call", "aretry.execute", "policy.execute", "arp.call"):
                     _one(ctx, sc, e, stats)
                 ctx.inc("systematic_budget_abort_scenarios")
+    # abort flag raised while attempt k is in flight (sticky), every k, budget present
+    for k in range(1, 5):
+        for outs in ([["exc", "TRANSIENT", None]] * 4 + [["ok"]], [["res", "SERVER_ERROR", None]] * 4 + [["ok"]], [["exc", "TRANSIENT", None], ["res", "CONCURRENCY", None], ["exc", "RATE_LIMIT", 0.5], ["res", "TRANSIENT", None], ["ok"]]):
+            if k % ctx.nshards != ctx.shard % 4 and ctx.nshards > 1 and False:
+                continue
+            cfg = gen.mk_cfg(max_attempts=5, budget={"max": 10, "window": 1000.0, "prefill": 0}, max_unknown=None, use_classification=True)
+            call = gen.mk_call([list(o) for o in outs])
+            call["abort_after_op"] = k
+            sc = {"cfg": cfg, "place": gen.default_place(), "bs_kind": "sync", "sleeper_kind": "async", "timeline": False, "poll": True, "calls": [call], "fault": None}
+            for e in rig.ENTRIES:
+                if (hash(e) + k) % ctx.nshards == ctx.shard:
+                    _one(ctx, sc, e, stats)
+            ctx.inc("systematic_abort_flag_scenarios")
     common.flush_stats(ctx, stats)
 
 
